@@ -392,7 +392,7 @@ func (c *converter) Break() error {
 }
 
 func (c *converter) Continue() error {
-	c.addLine(fmt.Sprintf("goto %s", c.mustCurrentForLabel()))
+	c.addLine(fmt.Sprintf("goto %s", c.fors[len(c.fors)-1].label)) // Jump to the head of the innermost open loop.
 	return nil
 }
 
